@@ -280,6 +280,7 @@ theorem doCmd_wf {s : Sim} (h : WF s) (c : Cmd) : WF (doCmd s c) := by
     · exact h
   | cancel k => exact cancelTag_wf h k
   | drop k => exact dropTag_wf h k
+  | halt => exact h
 
 theorem foldl_doCmd_wf {s : Sim} (h : WF s) (cs : List Cmd) : WF (cs.foldl doCmd s) := by
   induction cs generalizing s with
@@ -425,6 +426,7 @@ theorem doCmd_accH {h : List Nat} {s : Sim} (ha : AccH h s) (c : Cmd) : AccH h (
     simp only [doCmd, dropTag]
     rw [ids_map_flags _ _ (fun e => by split <;> rfl)]
     exact this
+  | halt => exact ha
 
 theorem foldl_doCmd_accH {h : List Nat} {s : Sim} (ha : AccH h s) (cs : List Cmd) : AccH h (cs.foldl doCmd s) := by
   induction cs generalizing s with
@@ -535,6 +537,7 @@ theorem doCmd_frame (s : Sim) (c : Cmd) :
     · simp
   | cancel k => simp [doCmd, cancelTag]
   | drop k => simp [doCmd, dropTag]
+  | halt => simp [doCmd]
 
 theorem foldl_doCmd_frame (s : Sim) (cs : List Cmd) :
     (cs.foldl doCmd s).now = s.now ∧ (cs.foldl doCmd s).log = s.log ∧ (cs.foldl doCmd s).steps = s.steps ∧
@@ -899,6 +902,7 @@ theorem doCmd_dead {i : Nat} {s : Sim} (h : Dead i s) (c : Cmd) : Dead i (doCmd 
     · exact h
   | cancel k => exact mapFlags_dead h _ (fun e => by split <;> simp)
   | drop k => exact mapFlags_dead h _ (fun e => by split <;> simp)
+  | halt => exact h
 
 theorem foldl_doCmd_dead {i : Nat} {s : Sim} (h : Dead i s) (cs : List Cmd) : Dead i (cs.foldl doCmd s) := by
   induction cs generalizing s with
